@@ -1,4 +1,3 @@
-import LunarVerif.Proofs.C05Txn
 import LunarVerif.Proofs.C05Wit
 /-!
 # C05 — every configuration the loader accepts runs safely on all traffic
@@ -8,72 +7,80 @@ Objects: `FlowGraph.validateDirection` / `buildFlow` (the loader's graph validat
 quota files, YAML-level validation, processor creation, builder incl. flow references), `C05.holds` (the
 judge predicate over observable histories).
 
-The unchanged code violates the property in three ways; the model is faithful to the code and each defect
-is an explicit decidable exclusion with a machine-checked witness that also replays on the real engine
-(`corpus/C05/F05{a,b,c}.ops`):
-  F05a  the cycle DFS starts from the root's edges only: a response cycle entered from a short-circuit node
-  F05b  `incorporateFlow` has no visited set: mutually referencing flows
-  F05c  quota files with null list entries are dereferenced before they are validated
+All statements are at full strength: the three defects the first round found are repaired in /repo
+(`fixes/F05a.patch` cycle DFS from every node, `fixes/F05b.patch` in-progress set in `incorporateFlow`,
+`fixes/F05c.patch` null entries of quota files refused), the model mirrors the repaired code, and the former
+witnesses are regression examples below and in `corpus/C05/regress-F05{a,b,c}.ops`.
 -/
 namespace LunarVerif.C05
 open LunarVerif.FlowGraph LunarVerif.FlowExec
 
 /-! ## 1. The validator's DFS -/
 
-/-- **dfs_sound.**  If `detectCircularConnections` accepts a direction, then below every target of the
-    root's edges all paths are shorter than `dfsFuel g`: no cycle is reachable from the root's edge
-    targets (a reachable cycle would give paths of every length, see `no_reachable_cycle`). -/
-theorem dfs_sound (g : DirGraph) (h : noCycleFromRoot g = true) (r : String) (n : Node)
-    (hr : g.root = some r) (hn : g.find r = some n) (e : Edge) (he : e ∈ n.edges) (t : String)
+/-- **dfs_sound.**  If `detectCircularConnections` accepts a direction (`noCycleAnywhere`), then below every
+    processor edge of EVERY node all paths are shorter than `dfsFuel g`: no cycle is reachable from any
+    node of the direction. -/
+theorem dfs_sound (g : DirGraph) (h : noCycleAnywhere g = true) (k : String) (n : Node)
+    (hn : g.find k = some n) (e : Edge) (he : e ∈ n.edges) (t : String)
     (ht : e.target = .node t) : ∀ p, IsPath g (t :: p) → p.length < dfsFuel g := by
-  unfold noCycleFromRoot at h
-  simp only [hr, hn] at h
+  unfold noCycleAnywhere at h
   rw [List.all_eq_true] at h
-  have := h e he
+  have hd := h n (find_mem hn)
+  unfold dfsFrom at hd
+  rw [List.all_eq_true] at hd
+  have := hd e he
   simp only [ht] at this
   exact dfs_paths_bounded g _ [] t e.cond this
 
-/-- **no_reachable_cycle.**  Hence no node reachable from a root edge target lies on a cycle. -/
-theorem no_reachable_cycle (g : DirGraph) (h : noCycleFromRoot g = true) (r : String) (n : Node)
-    (hr : g.root = some r) (hn : g.find r = some n) (e : Edge) (he : e ∈ n.edges) (t : String)
+/-- **no_reachable_cycle.**  Hence no node reachable from any edge target lies on a cycle. -/
+theorem no_reachable_cycle (g : DirGraph) (h : noCycleAnywhere g = true) (k : String) (n : Node)
+    (hn : g.find k = some n) (e : Edge) (he : e ∈ n.edges) (t : String)
     (ht : e.target = .node t) (p q : List String) (x : String)
     (hreach : IsPath g (t :: p ++ [x])) (hcyc : IsPath g (x :: q ++ [x])) : False :=
-  cycle_unbounded g (dfsFuel g) t p q x hreach hcyc (dfs_sound g h r n hr hn e he t ht)
+  cycle_unbounded g (dfsFuel g) t p q x hreach hcyc (dfs_sound g h k n hn e he t ht)
+
+/-- **dfs_sound_nodup.**  Equivalently: every such path is duplicate-free and, by the pigeonhole principle,
+    has at most `N` (= number of nodes of the direction) steps. -/
+theorem dfs_sound_nodup (g : DirGraph) (h : noCycleAnywhere g = true) (k : String) (n : Node)
+    (hn : g.find k = some n) (e : Edge) (he : e ∈ n.edges) (t : String)
+    (ht : e.target = .node t) (p : List String) (hp : IsPath g (t :: p)) :
+    (t :: p).Nodup ∧ p.length ≤ g.nodes.length :=
+  ⟨path_nodup g _ p t hp (dfs_sound g h k n hn e he t ht),
+   path_length_le g _ p t hp (dfs_sound g h k n hn e he t ht)⟩
 
 /-- non-vacuity: a diamond `R → {A, B} → C` passes the check (paths are cloned, `C` is visited twice). -/
-example : noCycleFromRoot ⟨some "R", [⟨"R", [⟨"a", .node "A"⟩, ⟨"a", .node "B"⟩]⟩, ⟨"A", [⟨"", .node "C"⟩]⟩,
+example : noCycleAnywhere ⟨some "R", [⟨"R", [⟨"a", .node "A"⟩, ⟨"a", .node "B"⟩]⟩, ⟨"A", [⟨"", .node "C"⟩]⟩,
     ⟨"B", [⟨"", .node "C"⟩]⟩, ⟨"C", [⟨"", .stream "globalStream" "end"⟩]⟩]⟩ = true := by decide
 
-/-- and a cycle below the root is refused -/
-example : noCycleFromRoot ⟨some "R", [⟨"R", [⟨"a", .node "A"⟩]⟩, ⟨"A", [⟨"a", .node "B"⟩]⟩,
+/-- a cycle is refused wherever it is — here it is NOT reachable from the root `R` -/
+example : noCycleAnywhere ⟨some "R", [⟨"R", [⟨"a", .stream "globalStream" "end"⟩]⟩, ⟨"A", [⟨"a", .node "B"⟩]⟩,
     ⟨"B", [⟨"b", .node "A"⟩]⟩]⟩ = false := by decide
 
 /-! ## 2. Walks of validated directions terminate, with a bound on processor executions -/
 
-/-- **dfs_sound_nodup.**  Equivalently: every path below a root edge target is duplicate-free and, by the
-    pigeonhole principle, has at most `N` (= number of nodes of the direction) steps. -/
-theorem dfs_sound_nodup (g : DirGraph) (h : noCycleFromRoot g = true) (r : String) (n : Node)
-    (hr : g.root = some r) (hn : g.find r = some n) (e : Edge) (he : e ∈ n.edges) (t : String)
-    (ht : e.target = .node t) (p : List String) (hp : IsPath g (t :: p)) :
-    (t :: p).Nodup ∧ p.length ≤ g.nodes.length :=
-  ⟨path_nodup g _ p t hp (dfs_sound g h r n hr hn e he t ht),
-   path_length_le g _ p t hp (dfs_sound g h r n hr hn e he t ht)⟩
+/-- **walk_terminates.**  In a direction the loader validated, the walk from EVERY entry point — the root
+    or the continuation of any short-circuit node — with any output oracle halts: with every fuel ≥ `N + 1`
+    (N = number of nodes) it never reports `.fuel`, and it executes at most 1 + D + D² + … + D^N processors
+    (D = largest out-degree). -/
+theorem walk_terminates (f : Flow) (o : Oracle) (d : Dir) (hv : validateDirection d (f.dir d) = .ok ())
+    (k : String) (fuel : Nat) (hf : (f.dir d).nodes.length + 1 ≤ fuel) :
+    (walk f o d fuel k).err ≠ some .fuel ∧
+    steps (walk f o d fuel k).trace ≤ bnd (maxDeg (f.dir d)) ((f.dir d).nodes.length + 1) :=
+  walk_any_ok f o d hv k fuel hf
 
-/-- **req_walk_terminates.**  For a request direction the loader validated, the walk from the root with
-    any output oracle halts: with every fuel ≥ `N + 1` (N = number of nodes) it never reports `.fuel`, and
-    it executes at most `dirBound` = 1 + D + D² + … + D^N processors (D = largest out-degree). -/
+/-- **req_walk_terminates** (the request walk from the root). -/
 theorem req_walk_terminates (f : Flow) (o : Oracle) (hv : validateDirection .req f.req = .ok ())
-    (r : String) (hr : f.req.root = some r) (fuel : Nat) (hf : f.req.nodes.length + 1 ≤ fuel) :
+    (r : String) (fuel : Nat) (hf : f.req.nodes.length + 1 ≤ fuel) :
     (walk f o .req fuel r).err ≠ some .fuel ∧
     steps (walk f o .req fuel r).trace ≤ bnd (maxDeg f.req) (f.req.nodes.length + 1) :=
-  walk_root_ok f o .req hv hr fuel hf
+  walk_any_ok f o .req hv r fuel hf
 
-/-- **resp_walk_from_root_terminates.** -/
-theorem resp_walk_from_root_terminates (f : Flow) (o : Oracle) (hv : validateDirection .res f.res = .ok ())
-    (r : String) (hr : f.res.root = some r) (fuel : Nat) (hf : f.res.nodes.length + 1 ≤ fuel) :
-    (walk f o .res fuel r).err ≠ some .fuel ∧
-    steps (walk f o .res fuel r).trace ≤ bnd (maxDeg f.res) (f.res.nodes.length + 1) :=
-  walk_root_ok f o .res hv hr fuel hf
+/-- **resp_walk_terminates** (the response walk from the root or from a short-circuit entry). -/
+theorem resp_walk_terminates (f : Flow) (o : Oracle) (hv : validateDirection .res f.res = .ok ())
+    (k : String) (fuel : Nat) (hf : f.res.nodes.length + 1 ≤ fuel) :
+    (walk f o .res fuel k).err ≠ some .fuel ∧
+    steps (walk f o .res fuel k).trace ≤ bnd (maxDeg f.res) (f.res.nodes.length + 1) :=
+  walk_any_ok f o .res hv k fuel hf
 
 /-- **walk_fuel_irrelevant.**  A walk that ended without `.fuel` is final: more fuel gives the same result
     (so "fuel" is only a device to make the walker total; `.fuel` for every fuel = non-termination). -/
@@ -81,100 +88,55 @@ theorem walk_fuel_irrelevant (f : Flow) (o : Oracle) (d : Dir) (fuel : Nat) (k :
     (h : (walk f o d fuel k).err ≠ some .fuel) (m : Nat) : walk f o d (fuel + m) k = walk f o d fuel k :=
   walk_stable_add f o d fuel k h m
 
-/-- **walk_terminates_after_fix.**  With the proposed fix (cycle DFS from EVERY node) every entry point
-    is safe, in particular the short-circuit continuation. -/
-theorem walk_terminates_after_fix (f : Flow) (o : Oracle) (d : Dir) (hs : noCycleAnywhere (f.dir d) = true)
-    (k : String) (fuel : Nat) (hf : depthOf (f.dir d) ≤ fuel) :
-    (walk f o d fuel k).err ≠ some .fuel ∧ steps (walk f o d fuel k).trace ≤ dirBound (f.dir d) :=
-  walk_any_ok f o d hs k fuel hf
-
-/-- non-vacuity of the hypotheses of `req_walk_terminates`: a validated direction with a root; the walk
-    `A → B` executes 2 processors, within the bound 1 + 1 + 1 -/
+/-- non-vacuity of the hypotheses: a validated direction with a root -/
 example : validateDirection .req ⟨some "A", [⟨"A", [⟨"a", .node "B"⟩]⟩, ⟨"B", []⟩]⟩ = .ok () :=
   vOk_ok (by decide)
 
-/-! ## 3. F05a: the short-circuit entry -/
+/-! ## 3. Loading terminates -/
 
-/-- **resp_walk_from_shortcircuit_violation_witness (F05a).**  The loader accepts the configuration of
-    `corpus/C05/F05a.ops` (response `start → R → end`, cycle `B ⇄ C` reachable only from the answering
-    node `G`); the response walk entered from `G` does not terminate for the constant oracle: for EVERY
-    fuel the result is `.fuel`. -/
-theorem resp_walk_from_shortcircuit_violation_witness :
-    ∃ (c : Cfg) (f : Flow) (o : Oracle),
-      load c = .accept [f] ∧ validateDirection .res f.res = .ok () ∧ f.res.root.isSome = true ∧
-      f05a c = true ∧
-      ∀ fuel, (executeFlow f o .res fuel (some "G")).err = some .fuel :=
-  ⟨wCfgA, wFlowA, wOracleA, wCfgA_load, vOk_ok (by decide), by decide, wCfgA_f05a, wFlowA_loops⟩
+/-- **build_terminates.**  Building the connection list of any flow of the configuration, with any flow
+    references, never exhausts the loader's fuel: the nesting of `incorporateFlow` is bounded by the number of
+    flows (in-progress set), every level by the longest connection list. -/
+theorem build_terminates (pts : List PType) (fs : List XFlow) (x : XFlow) (hx : x ∈ fs) (d : Dir) (s : BS) :
+    buildX pts fs x.name d (buildFuel fs) [] x.name s (x.conns d) ≠ .error .fuel :=
+  buildX_top_noFuel pts fs x hx d s
 
-/-- the same on the level of a whole request transaction: it never returns -/
-theorem request_txn_violation_witness :
-    ∃ (c : Cfg) (f : Flow) (o : Oracle), load c = .accept [f] ∧
-      ∀ fuel, (transaction (selected [f]) o fuel .req).err = some .fuel :=
-  ⟨wCfgA, wFlowA, wOracleA, wCfgA_load, wTxnA_loops⟩
+/-- **load_terminates.**  The loader ends with accept or reject for EVERY configuration directory. -/
+theorem load_terminates (c : Cfg) : (∃ fls, load c = .accept fls) ∨ (∃ cls, load c = .reject cls) := by
+  cases h : load c with
+  | accept fls => exact Or.inl ⟨fls, rfl⟩
+  | reject cls => exact Or.inr ⟨cls, rfl⟩
+  | crash => exact absurd h (load_no_crash c)
 
-/-! ## 4. Loading terminates -/
+/-- regression examples: the former witnesses of F05a, F05b, F05c are refused with an error … -/
+example : load wCfgA = .reject "cycle" := by decide
+example : load wCfgB = .reject "flowref" := by decide
+example : load wCfgC = .reject "quota" := by decide
+/-- … while the neighbouring legitimate configurations still load: a short-circuit continuation without
+    cycle in a root-less response direction, and a flow incorporated twice (diamond of references). -/
+example : isAccept (load wCfgA') = true := by decide
+example : isAccept (load wCfgDiamond) = true := by decide
 
-/-- **build_terminates_partial.**  Building a reference-free connection list consumes at most one unit
-    of fuel per connection: it never reports `.fuel`. -/
-theorem build_terminates_partial (pts : List PType) (fs : List XFlow) (home : String) (d : Dir)
-    (cs : List XConn) (hfree : cs.all (·.base?.isSome) = true) (cur : String) (s : BS) (fuel : Nat)
-    (hf : cs.length ≤ fuel) : buildX pts fs home d fuel cur s cs ≠ .error .fuel :=
-  buildX_refFree_noFuel pts fs home d cs hfree cur s fuel hf
+/-! ## 4. The property -/
 
-/-- hence the loader never crashes on a reference-free configuration -/
-theorem load_terminates_partial (c : Cfg) (h : f05b c = false) : load c ≠ .crash :=
-  load_no_crash h
+/-- **accepted_runs_safely.**  Every configuration the loader accepts handles every transaction (any
+    oracle, either direction, including early responses continued on the response side) within `bound`
+    processor executions and returns actions or an error; it never recurses without end. -/
+theorem accepted_runs_safely (c : Cfg) (fls : List Flow) (h : load c = .accept fls) (o : Oracle) (d : Dir) :
+    (runTxn fls o d).err ≠ some .fuel ∧ steps (runTxn fls o d).trace ≤ bound fls :=
+  transaction_ok o (walkFuel fls) fls d (load_ready h)
 
-/-- **build_violation_witness (F05b).**  `fa: A → flow fb start`, `fb: B → flow fa start`: for EVERY fuel
-    the builder reports `.fuel` — `incorporateFlow` recurses without bound, the loader crashes. -/
-theorem build_violation_witness :
-    ∃ (c : Cfg) (x : XFlow), x ∈ c.flows ∧ f05b c = true ∧
-      (∀ fuel s, buildX c.ptypes c.flows x.name .req fuel x.name s x.req = .error .fuel) ∧
-      load c = .crash :=
-  ⟨wCfgB, wFa, by decide, by decide, fun fuel s => (wB_loops fuel "fa" s).1, wCfgB_load⟩
-
-/-- **load_never_panics_partial** and its witness (F05c). -/
-theorem load_never_panics_partial (c : Cfg) (h : f05c c = false) (cls : String) : load c ≠ .panic cls :=
-  load_no_panic h cls
-
-theorem load_panic_violation_witness : ∃ c : Cfg, f05c c = true ∧ load c = .panic "nil-deref" :=
-  ⟨{ qfiles := [{ quotas := [{ id := "q1", url := some "verif.test/*", strat := { kind := "conc", maxreq := some 5 } }],
-                  internals := [{ null := true }] }] }, by decide, by decide⟩
-
-/-! ## 5. The property -/
-
-/-- **accepted_runs_safely_partial.**  Every configuration the loader accepts, outside F05a, handles every
-    transaction (any oracle, either direction) within `bound` processor executions and returns actions or
-    an error; it never recurses without end. -/
-theorem accepted_runs_safely_partial (c : Cfg) (fls : List Flow) (h : load c = .accept fls)
-    (ha : f05a c = false) (o : Oracle) (d : Dir) :
-    (runTxn fls o d).err ≠ some .fuel ∧ steps (runTxn fls o d).trace ≤ bound fls := by
-  have hs : ∀ f ∈ fls, noCycleAnywhere f.res = true := by
-    unfold f05a at ha
-    simp only [h] at ha
-    intro f hf
-    have := List.any_eq_false.mp ha f hf
-    simpa using this
-  exact transaction_ok o (walkFuel fls) fls d (load_ready h) hs
-
-/-- **response_runs_safely.**  Response transactions need no exclusion at all. -/
-theorem response_runs_safely (c : Cfg) (fls : List Flow) (h : load c = .accept fls) (o : Oracle) :
-    (runTxn fls o .res).err ≠ some .fuel ∧ steps (runTxn fls o .res).trace ≤ bound fls :=
-  responseTxn_ok o (walkFuel fls) fls (load_ready h)
-
-/-- **judge_holds_of_model_partial** — the connection theorem: the judge predicate is true of every model
-    run (any configuration, any list of transactions) outside the three defect classes.  So a judge
-    failure on the implementation is a divergence from the proved model or a listed finding. -/
-theorem judge_holds_of_model_partial (c : Cfg) (txns : List (Oracle × Dir))
-    (ha : f05a c = false) (hb : f05b c = false) (hc : f05c c = false) :
-    holds c (modelObs c txns) = true := by
+/-- **judge_holds_of_model** — the connection theorem: the judge predicate is true of EVERY model run (any
+    configuration, any list of transactions).  So a judge failure on the implementation is by construction
+    a divergence from the proved model. -/
+theorem judge_holds_of_model (c : Cfg) (txns : List (Oracle × Dir)) : holds c (modelObs c txns) = true := by
   unfold holds modelObs modelLoadObs
   cases hl : load c with
   | accept fls =>
     simp only [Bool.true_and, List.all_map, List.all_eq_true]
     intro t _
-    have := accepted_runs_safely_partial c fls hl ha t.1 t.2
-    simp only [Function.comp, modelTxnObs, hl, cfgBound, load_raw hl hb, resObs]
+    have := accepted_runs_safely c fls hl t.1 t.2
+    simp only [Function.comp, modelTxnObs, hl, cfgBound, resObs]
     cases he : (runTxn fls t.1 t.2).err with
     | none => simpa [txnOk] using this.2
     | some e =>
@@ -187,12 +149,13 @@ theorem judge_holds_of_model_partial (c : Cfg) (txns : List (Oracle × Dir))
     simp only [List.all_map, List.all_eq_true]
     intro t _
     simp [Function.comp, modelTxnObs, hl]
-  | panic cls => exact absurd hl (load_no_panic hc cls)
-  | crash => exact absurd hl (load_no_crash hb)
+  | crash => exact absurd hl (load_no_crash c)
 
-/-- non-vacuity: an accepted configuration outside all three classes whose request transaction executes
-    three processors (`A → {B, C}`), well within the bound -/
-example : f05a wCfgOk = false ∧ f05b wCfgOk = false ∧ f05c wCfgOk = false ∧
-    (modelObs wCfgOk [(fun _ _ _ => { name := "a" }, .req)]) = ⟨.accept true, [.ok 3]⟩ := by decide
+/-- non-vacuity: an accepted configuration whose request transaction executes three processors
+    (`A → {B, C}`), within the bound -/
+example : (modelObs wCfgOk [(fun _ _ _ => { name := "a" }, .req)]) = ⟨.accept true, [.ok 3]⟩ := by decide
+
+/-- and one where an early response continues on a root-less response side: `G`, then `B`, `C` -/
+example : (modelObs wCfgA' [(wOracleA, .req)]) = ⟨.accept true, [.ok 3]⟩ := by decide
 
 end LunarVerif.C05
